@@ -1,6 +1,7 @@
 import Holpy.Common.Sexp
-import Holpy.C18.Model
+import Holpy.C18.ModelRules
 import Holpy.C18.ModelLA
+import Holpy.C18.ModelArith
 /-
 Line protocol of the C18 model (one s-expression in, one out):
   (eval RULE (TERM ...) (NAT ...) ((HYPS PROP) ...))  ->  (ok (TERM ...) TERM WK) | (reject ERR) | bad-op
@@ -10,6 +11,9 @@ Line protocol of the C18 model (one s-expression in, one out):
   (la Z|Q (LIT ...) (NUM ...))                       ->  T | F             la_generic / la_tautology accepts?
 TERM = (v n) | (k c) | (c TERM TERM);  HYPS = (TERM ...);  WK = T | F (`wellKinded`)
 CMD = (assume TERM) | (step RULE (TERM ...) (NAT ...) (NAT ...))     premises = positions of earlier commands
+  (arith comp Z|Q CMP ATM ATM RHS) | (arith minus Z|Q ATM ATM) | (arith uminus Z|Q ATM ATM)  ->  T | F
+ATM = (l n) | (a k) | (+ ATM ATM) | (- ATM ATM) | (~ ATM) | (* ATM ATM) | (/ ATM ATM);  CMP in lt le gt ge
+RHS = tt | ff | (le ATM ATM) | (nle ATM ATM) | other
 LIT = (T|F REL LTM LTM) with REL in lt le eq gt ge other;  NUM = (numerator denominator)
 LTM = (n NUM) | (a k) | (+ LTM LTM) | (- LTM LTM) | (~ LTM) | (* NUM LTM) | (bad LTM)
 -/
@@ -84,6 +88,40 @@ def litOf {α : Type} (num : Sexp → Option α) : Sexp → Option (LA.Lit α)
   | .list [n, r, a, b] => do some ⟨← n.toBool?, ← relOf r, ← ltmOf num a, ← ltmOf num b⟩
   | _ => none
 
+partial def atmOf {α : Type} : Sexp → Option (Arith.ATm α)
+  | .list [.atom "l", n] => do some (.lit (← n.toNat?))
+  | .list [.atom "a", k] => do some (.atom (← k.toNat?))
+  | .list [.atom "+", a, b] => do some (.add (← atmOf a) (← atmOf b))
+  | .list [.atom "-", a, b] => do some (.sub (← atmOf a) (← atmOf b))
+  | .list [.atom "~", a] => do some (.neg (← atmOf a))
+  | .list [.atom "*", a, b] => do some (.mul (← atmOf a) (← atmOf b))
+  | .list [.atom "/", a, b] => do some (.div (← atmOf a) (← atmOf b))
+  | _ => none
+
+def cmpOf : Sexp → Option Arith.Cmp
+  | .atom "lt" => some .lt
+  | .atom "le" => some .le
+  | .atom "gt" => some .gt
+  | .atom "ge" => some .ge
+  | _ => none
+
+def crhsOf {α : Type} : Sexp → Option (Arith.CRhs α)
+  | .atom "tt" => some .tt
+  | .atom "ff" => some .ff
+  | .atom "other" => some .other
+  | .list [.atom "le", a, b] => do some (.le (← atmOf a) (← atmOf b))
+  | .list [.atom "nle", a, b] => do some (.nle (← atmOf a) (← atmOf b))
+  | _ => none
+
+def arithOp : List Sexp → Option Bool
+  | [.atom "comp", .atom "Q", c, a, b, r] => do some (Arith.compSimplifyQ (← cmpOf c) (← atmOf a) (← atmOf b) (← crhsOf r))
+  | [.atom "comp", .atom "Z", c, a, b, r] => do some (Arith.compSimplifyZ (← cmpOf c) (← atmOf a) (← atmOf b) (← crhsOf r))
+  | [.atom "minus", .atom "Q", a, b] => do some (Arith.minusSimplifyQ (← atmOf a) (← atmOf b))
+  | [.atom "minus", .atom "Z", a, b] => do some (Arith.minusSimplifyZ (← atmOf a) (← atmOf b))
+  | [.atom "uminus", .atom "Q", a, b] => do some (Arith.unaryMinusSimplifyQ (← atmOf a) (← atmOf b))
+  | [.atom "uminus", .atom "Z", a, b] => do some (Arith.unaryMinusSimplifyZ (← atmOf a) (← atmOf b))
+  | _ => none
+
 def cmdOf : Sexp → Option Cmd
   | .list [.atom "assume", t] => do some (.assume (← tmOf t))
   | .list [.atom "step", .atom r, cl, sizes, prems] => do
@@ -112,6 +150,10 @@ def handle (line : String) : String :=
           toString (Sexp.list [.atom "ok", .list (s.hyps.map tmTo), tmTo s.prop, Sexp.ofBool wk])
         | none => "(reject empty)"
       | .error e => toString (Sexp.list [.atom "reject", .atom (errTo e)])
+    | none => "bad-op"
+  | some (.list (.atom "arith" :: rest)) =>
+    match arithOp rest with
+    | some b => toString (Sexp.ofBool b)
     | none => "bad-op"
   | some (.list [.atom "la", .atom "Q", lits, cs]) =>
     match (do (← lits.toList?).mapM (litOf numQ)), (do (← cs.toList?).mapM numQ) with
